@@ -92,7 +92,12 @@ EXERCISED = (
     "lifetime ending between a failed write and the next connection; a socket object whose "
     "earlier life ended during the back-off; reconnections refused once; the event loop held "
     "up by a synchronous call; malformed frames followed by partial ones of the same kind; "
-    "error codes changing from one non-zero value to another")
+    "error codes changing from one non-zero value to another; single-bit damage in the frame "
+    "markers and length words in front of the check-value-covered bytes; a dozen isolated "
+    "write faults in the life of one socket; installations without zones across many "
+    "init/shutdown cycles; the AC status timer flag flipping between commands; a console "
+    "that stops answering while the link stays up; reset_connection() called by the "
+    "application during the back-off; AT4 timer commands for several ACs in a row")
 
 T = """You are helping to evaluate a verification harness by producing a *subtle, realistic regression* in a Python library.
 
